@@ -308,6 +308,7 @@ def gen_effect_emission(loader, check, replay_on=True):
                     d = it.call(irkit.C(loader, "Register"), ["Rdd" if dk == "RegisterPair" else "Rd", RA.PW if dk == "RegisterPair" else RA.W, conc_vt(loader, t)], {})
                 s = irkit.mk_operand(it, sk, t, "s")
                 a = it.call(Asg, ["op_ASSIGN", AT("="), d, s], {})
+                it.ctx.mark_pre(a, d, s)
                 return {"a": a, "d": d, "s": s, "t": t}
             ex = explore(loader, setup, lambda it, st: it.call(it.getattr_(st["a"], "il_write"), [], {}))
             check.absorb(ex, f"Assignment.il_write {inst}")
@@ -318,6 +319,7 @@ def gen_effect_emission(loader, check, replay_on=True):
                 check.ob("Assignment.il_write#total", pi, p.ctx.pc, p.outcome == "return", detail="" if p.outcome == "return" else f"raises {p.value!r}")
                 if p.outcome != "return":
                     continue
+                emit.frame_obligation(check, "Assignment.il_write", pi, p)
                 t = emit.as_tpl(p.value)
                 try:
                     term = rzil.parse_expr(t.parts)
